@@ -525,7 +525,7 @@ package ggql
 //@ fieldinv Enum.values: true
 //@ fieldinv List.Base: v != nil
 //@ fieldinv NonNull.Base: v != nil
-//@ typeinv Type: v == nil || ptrval(v) != 0
+//@ typeinv Type: v == nil || (ptrlike(v) && ptrval(v) != 0)
 
 //@ -- ------------------------------------------------------------------ C06 error paths
 //@ -- Error lists are "owned": every *Error in a list was created for it, later entries were created later.
@@ -769,8 +769,16 @@ package ggql
 //@   ensures[conforms] err == nil ==> conformsIn(res, recv)
 //@   ensures[nonnil] err == nil && v != nil ==> res != nil
 //@   ensures[null-kept] v == nil && err == nil ==> res == nil
-//@   assigns fresh
+//@   -- an implementation may coerce an object in place (Input.CoerceIn does; List.CoerceIn writing into its list is a C11 finding)
+//@   assigns fresh, v
 
+//@ -- inType(t): t is an input type expression: a coercer, and so are the types it wraps (what SDL validation demands of an argument's type)
+//@ spec inType(t Type) bool
+//@ axiom inTypeDef(t Type): inType(t) ==> t != nil && is(t, InCoercer) && (is(t, *List) ==> inType(as(t, *List).Base)) && (is(t, *NonNull) ==> inType(as(t, *NonNull).Base))
+//@ -- memberType(t): the member type of a list type or of a non-null list type, nil for other types
+//@ spec memberType(t Type) Type = ite(is(t, *List), as(t, *List).Base, ite(is(t, *NonNull) && is(as(t, *NonNull).Base, *List), as(as(t, *NonNull).Base, *List).Base, nil))
+//@ -- declaredIn(fd, k): the field definition declares an argument k whose type is an input type
+//@ spec declaredIn(fd *FieldDef, k string) bool = fd != nil && fd.args.dict != nil && has(fd.args.dict, k) && fd.args.dict[k] != nil && inType(fd.args.dict[k].Type)
 //@ spec nonNullArg(fd *FieldDef, k string) bool = fd != nil && fd.args.dict != nil && has(fd.args.dict, k) && is(fd.args.dict[k].Type, *NonNull)
 //@ -- suppliedUpTo(args, k, n): one of the first n argument values is a non-null value for argument k (prefix function, unfolded by axiom)
 //@ spec suppliedUpTo(args []*ArgValue, k string, n int) bool reads SH_Int, H_ArgValue.Arg, H_ArgValue.Value
@@ -835,8 +843,12 @@ package ggql
 //@   loop 1: use valHList(as(v, []interface{}), rangeindex+1)
 //@           invariant[own-list] fresh(a) && len(a) == len(as(v, []interface{})) && rangeindex+1 <= len(a)
 //@           invariant[elements] forall j int {a[j]} :: 0 <= j && j <= rangeindex ==> (isColl(as(v, []interface{})[j]) ==> a[j] != as(v, []interface{})[j]) && (!isColl(as(v, []interface{})[j]) ==> a[j] == as(v, []interface{})[j])
+//@ -- an input object value: null, or (for a type not bound to a Go struct) an object with only declared fields and
+//@ -- every non-null field present; the value built by reflection for a bound type is opaque here
+//@ axiom conformsInDef_Input(v interface{}, t Type): is(t, *Input) ==> (conformsIn(v, t) <==> (v == nil || as(t, *Input).meta != nil || (is(v, map[string]interface{}) && asMap(v) != nil && (forall k string {has(asMap(v), k)} :: has(asMap(v), k) ==> inFld(as(t, *Input), k) != nil) && (forall k string {asMap(v)[k]} :: has(as(t, *Input).fields.dict, k) && is(inFld(as(t, *Input), k).Type, *NonNull) ==> asMap(v)[k] != nil))))
 //@ func (*Input).CoerceIn
 //@   props C04
+//@   use conformsInDef_Input(res, box(t))
 //@   check panic {C03}
 //@   requires t != nil
 //@   decreases{C03} valH(v)
@@ -851,6 +863,7 @@ package ggql
 //@   ensures[non-null-present] is(v, map[string]interface{}) && t.meta == nil && err == nil ==> (forall k string {asMap(v)[k]} :: has(t.fields.dict, k) && is(inFld(t, k).Type, *NonNull) ==> asMap(v)[k] != nil)
 //@   ensures[coerced] is(v, map[string]interface{}) && t.meta == nil && err == nil ==> (forall k string {asMap(v)[k]} :: has(t.fields.dict, k) && old(asMap(v)[k]) != nil ==> conformsIn(asMap(v)[k], inFld(t, k).Type))
 //@   ensures[same-map] is(v, map[string]interface{}) && t.meta == nil && err == nil ==> res == v
+//@   ensures[only-declared] is(v, map[string]interface{}) && t.meta == nil && err == nil ==> (forall k string {has(asMap(v), k)} :: has(asMap(v), k) ==> inFld(t, k) != nil)
 //@   ensures[nil] v == nil ==> res == nil && err == nil
 //@   ensures[non-object-refused] v != nil && !is(v, map[string]interface{}) && (t.meta == nil || t.meta != rtypeof(v)) ==> err != nil
 //@   ensures[err-fresh] aserr(err) != nil ==> fresh(aserr(err))
@@ -865,12 +878,17 @@ package ggql
 //@           invariant[done-required] t.meta == nil ==> (forall k string {seen(1, k)} :: seen(1, k) ==> !(inFld(t, k).Default == nil && is(inFld(t, k).Type, *NonNull) && old(asMap(v)[k]) == nil))
 //@           invariant[todo] forall k string {seen(1, k)} :: !seen(1, k) ==> asMap(v)[k] == old(asMap(v)[k]) && (has(asMap(v), k) <==> old(has(asMap(v), k)))
 //@           invariant[fields-kept] forall k string {inFld(t, k)} :: inFld(t, k) == old(inFld(t, k))
+//@           invariant[only-declared] forall k string {has(asMap(v), k)} :: has(asMap(v), k) ==> inFld(t, k) != nil
+//@           -- a member of the object is not the object itself (JSON-shaped values are finite trees: valHMap at entry)
+//@           invariant[acyclic] forall k string {old(asMap(v)[k])} :: old(asMap(v)[k]) != v
 
 //@ -- JSON-shaped values (what the parsers and encoding/json produce) never hold a typed-nil map (trusted for the
 //@ -- members of lists and objects and for parsed argument values; a precondition for the value handed in)
 //@ eleminv map[string]interface{}: is(v, map[string]interface{}) ==> as(v, map[string]interface{}) != nil
 //@ eleminv []interface{}: is(v, map[string]interface{}) ==> as(v, map[string]interface{}) != nil
-//@ fieldinv ArgValue.Value: is(v, map[string]interface{}) ==> as(v, map[string]interface{}) != nil
+//@ fieldinv ArgValue.Value: (is(v, map[string]interface{}) ==> as(v, map[string]interface{}) != nil) && (slicelike(v) ==> is(v, []interface{}))
+//@ fieldinv Arg.Default: slicelike(v) ==> is(v, []interface{})
+//@ fieldinv InputField.Default: slicelike(v) ==> is(v, []interface{})
 //@ func (*Root).replaceArgVars
 //@   props C04
 //@   check panic {C03}
@@ -882,21 +900,32 @@ package ggql
 //@   ensures[no-resolver]{C04} #res == old(#res)
 //@   ensures[var-conforms]{C04} is(v, Var) && at != nil && is(at, InCoercer) && len(ea) == 0 ==> conformsIn(val, at)
 //@   ensures[scalar-literal-conforms]{C04} !is(v, Var) && !is(v, map[string]interface{}) && !is(v, []interface{}) && !is(v, Symbol) && at != nil && is(at, InCoercer) && len(ea) == 0 ==> conformsIn(val, at)
-//@   ensures[symbol-enum-conforms]{C04} is(v, Symbol) && is(at, *Enum) && len(ea) == 0 ==> conformsIn(val, at)
+//@   ensures[symbol-conforms]{C04} is(v, Symbol) && at != nil && is(at, InCoercer) && len(ea) == 0 ==> conformsIn(val, at)
+//@   ensures[object-conforms]{C04} is(v, map[string]interface{}) && at != nil && is(at, InCoercer) && len(ea) == 0 ==> conformsIn(val, at)
+//@   ensures[list-not-list-type-conforms]{C04} is(v, []interface{}) && at != nil && is(at, InCoercer) && !is(at, *List) && !(is(at, *NonNull) && is(as(at, *NonNull).Base, *List)) && len(ea) == 0 ==> conformsIn(val, at)
+//@   ensures[list-conforms]{C04} is(v, []interface{}) && inType(at) && len(ea) == 0 ==> conformsIn(val, at)
+//@   ensures[conforms]{C04} inType(at) && len(ea) == 0 ==> conformsIn(val, at)
 //@   use conformsInDef_Enum(val, at)
+//@   use inTypeDef(at)
+//@   use inTypeDef(as(at, *NonNull).Base)
+//@   use conformsInDef_List(val, at)
+//@   use conformsInDef_NonNull(val, at)
+//@   use conformsInDef_List(val, as(at, *NonNull).Base)
 //@   assigns fresh
 //@   loop 0: invariant[errs] errsFresh(ea)
 //@   loop 1: invariant[bounds] rangeindex+1 <= len(tv)
 //@           invariant[errs] errsFresh(ea)
+//@           invariant[elems-conform]{C04} len(ea) == 0 && inType(memberType(at)) ==> (forall j int {tv[j]} :: 0 <= j && j < rangeindex+1 ==> conformsIn(tv[j], memberType(at)))
 //@           decreases len(tv) - rangeindex
 
 //@ func (*Root).formArgs
-//@   props C10
+//@   props C10 C04
 //@   check panic {C03}
 //@   check frame {C11}
 //@   requires root != nil && field != nil
 //@   ensures[errs-fresh]{C06} errsFresh(ea)
 //@   ensures[no-resolver]{C10} #res == old(#res)
+//@   ensures[args-conform]{C04} len(ea) == 0 ==> (forall k string {args[k]} :: args != nil && has(args, k) && declaredIn(fd, k) ==> conformsIn(args[k], fd.args.dict[k].Type))
 //@   ensures[required-missing]{C10} forall k string {suppliedUpTo(old(field.Args), k, len(old(field.Args)))} :: nonNullArg(fd, k) && !suppliedUpTo(old(field.Args), k, len(old(field.Args))) ==> len(ea) > 0
 //@   assigns fresh
 //@   loop 0: invariant[req] forall k string :: seen(0, k) && is(fd.args.dict[k].Type, *NonNull) ==> has(required, k) && !required[k]
@@ -907,9 +936,11 @@ package ggql
 //@           invariant[supplied] forall k string :: has(required, k) ==> (required[k] <==> suppliedUpTo(field.Args, k, rangeindex+1))
 //@           use suppliedStep(field.Args, rangeindex+1)
 //@           invariant[args-fresh] args != nil && fresh(args)
+//@           invariant[args-conform]{C04} len(ea) == 0 ==> (forall k string {args[k]} :: has(args, k) && declaredIn(fd, k) ==> conformsIn(args[k], fd.args.dict[k].Type))
 //@           decreases len(field.Args) - rangeindex
 //@   loop 2: invariant[errs] errsFresh(ea)
 //@           invariant[missing] forall k string :: seen(2, k) && has(required, k) && !required[k] ==> len(ea) > 0
+//@           invariant[args-conform]{C04} len(ea) == 0 ==> (forall k string {args[k]} :: args != nil && has(args, k) && declaredIn(fd, k) ==> conformsIn(args[k], fd.args.dict[k].Type))
 
 //@ spec suppliedAny(field *Field, k string) bool = exists i int :: 0 <= i && i < len(field.Args) && field.Args[i] != nil && field.Args[i].Arg == k
 
@@ -1034,6 +1065,7 @@ package ggql
 //@   ensures[key-frame]{C01} forall k string :: k != fkey(field) ==> (has(result, k) <==> old(has(result, k))) && result[k] == old(result[k])
 //@   ensures[typename]{C01} old(field.ConType) != nil && field.Name == "__typename" && old(fdOf(t, field.Name)) == nil ==> has(result, fkey(field)) && result[fkey(field)] == box(t.Name()) && len(ea) == 0 && #res == old(#res)
 //@   ensures[declared-leaf-type]{C05} depth > 0 && old(field.ConType) != nil && !isMetaName(field.Name) && old(fdOf(t, field.Name)) != nil && isLeafT(old(fdOf(t, field.Name).Type)) && len(ea) == 0 && has(result, fkey(field)) && result[fkey(field)] != nil ==> conformsOut(result[fkey(field)], old(fdOf(t, field.Name).Type))
+//@   atcall[args-conform]{C04} Resolve: forall k string {args[k]} :: args != nil && has(args, k) && declaredIn(fd, k) ==> conformsIn(args[k], fd.args.dict[k].Type)
 //@   ensures[required-arg-missing-no-call]{C04,C02} old(field.ConType) != nil && !isMetaName(field.Name) && old(fdOf(t, field.Name)) != nil && (is(obj, Resolver) || root.AnyResolver != nil) && (exists k string :: old(nonNullArg(fdOf(t, field.Name), k)) && !old(suppliedUpTo(field.Args, k, len(field.Args)))) ==> len(ea) > 0 && #res == old(#res)
 //@   ensures[undeclared-argument]{C10} is(t, *Object) && old(fdOf(t, field.Name)) != nil && (exists i int {field.Args[i]} :: 0 <= i && i < old(len(field.Args)) && !old(argDeclared(t, field.Name, field.Args[i].Arg))) ==> len(ea) > 0 && #res == old(#res)
 //@   ensures[undefined-field]{C10} old(field.ConType) != nil && !isMetaName(field.Name) && old(fdOf(t, field.Name)) == nil ==> len(ea) > 0 && #res == old(#res) && (has(result, fkey(field)) <==> old(has(result, fkey(field)))) && result[fkey(field)] == old(result[fkey(field)])
